@@ -1009,6 +1009,53 @@ class World(object):
             x = self.obj(a).deepcopy()
         self.finish_new(st, x, origin='deepcopy')
 
+    def op_acc_copy(self, st):
+        """An ACCUMULATOR (an object that names itself as its own result register: x.config.op_out = x)
+        is copied by a route built on deep copy.  The copy's register must be the copy itself (or a
+        private object), never the original.  The self-reference is set up and taken down inside this one
+        step - the library's like= route builds half-made objects from such cycles, which no property
+        covers - so the world never holds a cycle between steps."""
+        op = st.op
+        self.room()
+        a = self.ref(op['slot'], lambda o: np.asarray(o.val).dtype.kind in 'iu')
+        st.kind = 'derive'
+        st.pure = True
+        st.srcs = [a]
+        field = op.get('field', 'op_out')
+        if field not in REG_FIELDS:
+            raise Skip('field')
+        yield
+        x = self.obj(a)
+        old = {f: getattr(x.config, '_' + f, None) for f in REG_FIELDS}
+        both = op.get('both')
+        try:
+            setattr(x.config, field, x)
+            if both:
+                setattr(x.config, both, x)       # the same register named by two fields
+            how = op.get('how', 'deepcopy')
+            if how == 'deepcopy':
+                y = x.deepcopy()
+            elif how == 'copy.deepcopy':
+                y = copy.deepcopy(x)
+            elif how == 'invert':
+                y = ~x
+            elif how == 'flatten':
+                y = x.flatten() if np.asarray(x.val).ndim > 0 else x.deepcopy()
+            else:
+                y = fxf.fxp_like(x, 0)
+            self.bump('accumulator_copied')
+            if isinstance(y, Fxp):
+                for f in (field, both) if both else (field,):
+                    r = getattr(y.config, '_' + f, None)
+                    if r is x:
+                        st.extra['acc_shared'] = f
+                for f in REG_FIELDS:
+                    setattr(y.config, f, None)
+        finally:
+            for f, v in old.items():
+                setattr(x.config, f, v)
+        self.finish_new(st, y, origin='deepcopy')
+
     def op_like(self, st):
         op = st.op
         self.room()
@@ -1864,8 +1911,14 @@ class World(object):
                 # that configuration is outside every property, so it is not generated
                 raise Skip('register cycle')
         st.extra['field'] = op['field']
+        same = op.get('same_as')
         yield
-        setattr(self.obj(d).config, op['field'], None if r is None else self.obj(r))
+        if same in REG_FIELDS and isinstance(getattr(self.obj(d).config, '_' + same, None), Fxp):
+            # the register another field of this object already names (one register, two fields)
+            setattr(self.obj(d).config, op['field'], getattr(self.obj(d).config, '_' + same))
+            self.bump('register_named_by_two_fields')
+        else:
+            setattr(self.obj(d).config, op['field'], None if r is None else self.obj(r))
         if op.get('method') in ('raw', 'repr'):
             # ... together with the calculation method of the route the register belongs to
             setattr(self.obj(d).config, 'array_op_method' if op['field'].startswith('array_') else 'op_method',
